@@ -200,9 +200,11 @@ pub fn stroke_path_impl(
                 Some(v) => outset_clip = Some(v),
                 None => return,
             }
-            match clip.to_int_rect().inset(1, 1) {
-                Some(v) => inset_clip = Some(v),
-                None => return,
+            // A clip of one or two pixels has no inset: then no segment can be quick-accepted,
+            // but the path still has to be drawn.
+            inset_clip = clip.to_int_rect().inset(1, 1);
+            if inset_clip.is_none() {
+                outset_clip = None;
             }
         }
     }
